@@ -149,9 +149,9 @@ def model_check(pid, tier):
                     "recognised": sum(1 for c in got if c["rec"])}
         # replayed: bodies with a self call and at least one call within the budget (plus a few without a self
         # call: the compiler must leave them alone, too)
+        got.sort(key=lambda c: json.dumps(c, sort_keys=True))        # TLC's workers print in any order
         plain = [c for c in got if not c["selfcall"]][:20]
         got = [c for c in got if c["selfcall"] and any(call["ok"] for call in c["calls"])] + plain
-        got.sort(key=lambda c: json.dumps(c, sort_keys=True))        # TLC's workers print in any order
         total = len(got)
         share = REPLAY_SHARE[tier]
         if total > share:
